@@ -23,7 +23,7 @@ IsEv(e) == /\ l <= EndOf(s0)
            /\ Trace[l].ev = e
            /\ l' = l + 1 /\ s0' = s0
 
-TBegin  == IsEv("Begin") /\ Trace[l].sameErr = TRUE /\ Begin
+TBegin  == IsEv("Begin") /\ Trace[l].sameErr = TRUE /\ Begin(Trace[l].opt)
 TEndTx  == IsEv("EndTx") /\ Trace[l].sameErr = TRUE /\ EndTx(Trace[l].how)
 TStep   == IsEv("Step") /\ Step(Trace[l].kind, Trace[l].sameRes, Trace[l].sameErr)
 TFinish == IsEv("Finish") /\ Finish(Trace[l].sameData, Trace[l].sameJournal, Trace[l].appInOrder,
